@@ -21,8 +21,27 @@ ReportOK(e) ==
   /\ QOf(e.post, e.inst) = e.ans                                      \* the answer is what is put on record
   /\ \A k \in DOMAIN e.pre : e.pre[k].inst # e.inst => QOf(e.post, e.pre[k].inst) = e.pre[k].q   \* nobody else's quota moves
   /\ e.type = "tb" => BurstOK(e.ans, e.limit, e.blimit, e.bans)
-TNext == /\ l <= Len(Traces[tr].events) /\ ReportOK(Ev)
+\* a ROUND of overlapping reports (and at most one limit change), harness cmd/alloc: [k |-> "round", pre, post, limit, limit2, blimit, sum,
+\* reports: seq of [inst, answered, ans, bans], type].  The round is accepted iff SOME order of its reports (and of the limit change among
+\* them) explains it: every answer satisfies the L0 clauses in the state reached so far and is what is put on record, nobody else's quota
+\* moves, and the recorded sum is the sum of the recorded quotas.
+RInsts(e) == {e.pre[k].inst : k \in DOMAIN e.pre} \cup {e.reports[k].inst : k \in DOMAIN e.reports} \cup {e.post[k].inst : k \in DOMAIN e.post}
+RECURSIVE Expl(_, _, _, _)
+Expl(e, rem, qq, L) ==
+  IF rem = {} THEN (\A i \in DOMAIN qq : QOf(e.post, i) = qq[i]) /\ L = e.limit2
+  ELSE \E x \in rem :
+         IF x = 0 THEN Expl(e, rem \ {0}, qq, e.limit2)
+         ELSE LET r == e.reports[x] IN
+              /\ AnswerOK(SumOver(qq, DOMAIN qq), qq[r.inst], L, r.ans)
+              /\ (e.type = "tb" => BurstOK(r.ans, L, e.blimit, r.bans))
+              /\ Expl(e, rem \ {x}, [qq EXCEPT ![r.inst] = r.ans], L)
+RoundOK(e) ==
+  /\ \A k \in DOMAIN e.reports : e.reports[k].answered
+  /\ e.sum = SumQ(e.post)
+  /\ Expl(e, DOMAIN e.reports \cup (IF e.limit2 # e.limit THEN {0} ELSE {}), [i \in RInsts(e) |-> QOf(e.pre, i)], e.limit)
+EvOK(e) == IF e.k = "round" THEN RoundOK(e) ELSE ReportOK(e)
+TNext == /\ l <= Len(Traces[tr].events) /\ EvOK(Ev)
          /\ l' = l + 1 /\ UNCHANGED <<tr, limit, q, hist>>
 TSpec == TInit /\ [][TNext]_tvars
-Judge == (l <= Len(Traces[tr].events) /\ ~ReportOK(Ev)) => PrintT(<<"REJECT", Traces[tr].id, l>>)
+Judge == (l <= Len(Traces[tr].events) /\ ~EvOK(Ev)) => PrintT(<<"REJECT", Traces[tr].id, l>>)
 =============================================================================
